@@ -445,6 +445,16 @@ TARGETS = [
                   methods={"into_u64": "{recv}"},
                   ignore_stmts=["self.data.push("],
                   push_stmts={"self.offsets.push(new_offset)": ("offsets", "new_offset")})),
+    # ---- reader: where the pack infos of a manifest sit (`PackOffsetsIter`)
+    dict(name="packOffsetsNew", group="Lookup", file="src/reader/manifest_pack.rs", fn="new", after=r"impl PackOffsetsIter",
+         cfg=dict(params=[("blockSize", N), ("check_info_pos", N), ("pack_count", N)], ret="(Nat × Nat)",
+                  paths={"PackInfo::BLOCK_SIZE": "blockSize"}, methods={"into_u16": "{recv}"},
+                  struct_as={"Self": ["offset", "left"]})),
+    dict(name="packOffsetsNext", group="Lookup", file="src/reader/manifest_pack.rs", fn="next", after=r"impl Iterator for PackOffsetsIter",
+         cfg=dict(params=[("blockSize", N), ("st_offset", N), ("st_left", N)], ret="(Option Nat × Nat × Nat)",
+                  self_fields={"offset": "st_offset", "left": "st_left"},
+                  paths={"PackInfo::BLOCK_SIZE": "blockSize", "None": "(none, st_offset, st_left)"},
+                  exprs={"Some(offset)": "(some offset, st_offset, st_left)"})),
 ]
 
 
